@@ -136,7 +136,7 @@ def r_balance_t(rep, prog):
     n += transformer(rep, prog, rule, LT + "put", LT, "free", +1)
     n += transformer(rep, prog, rule, HE + "dec", HE, "num_frames", -1)
     n += transformer(rep, prog, rule, HE + "inc", HE, "num_frames", +1)
-    rep.floor(rule, "transformer result sites", n, 10)
+    rep.floor(rule, "transformer result sites", n, 6)
     # atomic layer: amounts handed back are counters of the *old* value
     checks = [
         ("llfree::trees::Trees::sync", TR + "free", "core::result::Result::map"),
@@ -200,13 +200,13 @@ def r_balance(rep, prog):
     for fn in balance.UPPER_FNS:
         exp = {("p", "free"): -1} if fn.endswith("drain::{closure#0}") else None
         n += balance.check_function(rep, prog, rule, fn, balance.upper_effect, expect_final=exp)
-    rep.floor(rule, "return states of the upper call tree", n, 55)
+    rep.floor(rule, "return states of the upper call tree", n, 30)
     rule2 = "R-BALANCE-LOWER"
     rep.rule(rule2, "huge-entry counter vs bitfield: a decrement is followed by a successful bit claim or undone; cleared bits are followed by an increment")
     m = 0
     for fn in balance.LOWER_FNS:
         m += balance.check_function(rep, prog, rule2, fn, lambda b, tm, bi, t: balance.lower_effect(b, tm, bi, t, prog))
-    rep.floor(rule2, "return states of the lower functions", m, 15)
+    rep.floor(rule2, "return states of the lower functions", m, 8)
 
 
 def r_stats_merge(rep, prog):
